@@ -22,7 +22,7 @@ MANIFEST = dict(
          "lengths >= 2^32 are treated as unsupported input. Trusted: Coq kernel, extraction, OCaml driver (SHA-1 checked against "
          "hashlib every run), Python oracle.")
 
-MODES = ["content", "base", "default", "stdin"]
+MODES = ["content", "base", "default", "stdin", "stdin-content", "stdin-base"]
 
 
 def witness_zero_piece_length():
@@ -231,8 +231,8 @@ def generate(ctx):
     # every perturbation at least once per (single|multi), modes cycling
     k = 0
     while len(cases) < want:
-        w = vfy.random_world(r, multi=(k % 3 != 0))
-        base_mode = MODES[k % 4]
+        w = vfy.random_world(r, multi=(r.random() < 0.67))
+        base_mode = MODES[k % len(MODES)]
         k += 1
         for j, (tag, x, where_ok, tor) in enumerate(perturbations(r, w, base_mode)):
             mode = base_mode if j % 5 else r.choice(MODES)
